@@ -162,7 +162,7 @@ func runSound(e *ev.Env) {
 			checkSound(e, c, sc, []string{"/b2022", "/b2022-x", "/b2022-01-01", "/b2022-01-01-x"})
 		}
 	})
-	e.Cases("patterns", e.N(3000, 60000), func(c *ev.Case) {
+	e.Cases("patterns", e.N(30000, 600000), func(c *ev.Case) {
 		r := c.R
 		sc := genSoundCase(r)
 		n := e.N(30, 40)
